@@ -17,6 +17,7 @@ from .common import MachineryError, REPLAYS, WORK, seed_from_env
 GROUP_OF = {
     "C01": "book", "C02": "book", "C03": "book", "C04": "book", "C08": "book", "C19": "book",
     "C05": "run", "C06": "run", "C09": "run", "C10": "run", "C11": "run", "C13": "run",
+    "C14": "run", "C15": "run", "C16": "run", "C17": "run",
 }
 
 
